@@ -88,6 +88,30 @@ func encodeVersionDataBadField(shape int, magic uint32, which int) ([]byte, bool
 	return nil, false
 }
 
+// encodeVersionDataNullOrRange is version data of the right shape, length and
+// magic with a CBOR null in place of a boolean, or a peer-sharing value (99)
+// outside every version's range.
+func encodeVersionDataNullOrRange(shape int, magic uint32, which int) ([]byte, bool) {
+	m := cborUint(nil, 0, uint64(magic))
+	switch shape {
+	case shapeNtCNew, shapeNtNOld:
+		return append(append([]byte{0x82}, m...), 0xf6), true
+	case shapeNtNNew:
+		b := append([]byte{0x84}, m...)
+		switch which % 4 {
+		case 0:
+			return append(b, 0xf6, 0x00, 0xf4), true // diffusion mode is null
+		case 1:
+			return append(b, 0xf4, 0xf6, 0xf4), true // peer sharing is null
+		case 2:
+			return append(b, 0xf4, 0x00, 0xf6), true // query flag is null
+		default:
+			return append(b, 0xf4, 0x18, 0x63, 0xf4), true // peer sharing 99
+		}
+	}
+	return nil, false
+}
+
 func hsAcceptSetup(s *rt.Sim, tier string) func() {
 	schedCfg(s, true)
 	s.Cfg.MaxSteps = 40000
@@ -134,6 +158,42 @@ func hsAcceptSetup(s *rt.Sim, tier string) func() {
 				rt.Hit("hsaccept.configured-version-not-proposed")
 			}
 		}
+		// arm (own stream): the responder answers with MsgQueryReply although (in three of four
+		// runs) nobody asked a question. That is no acceptance of any proposed version
+		if rt.Choose("op.x", 6) == 5 {
+			label := "handshake-ntc"
+			if co.ntn {
+				label = "handshake-ntn"
+			}
+			_ = peer.send(0, true, sampleBytes(label, 3, 0, 0))
+			for i := 0; i < 1200 && !ret; i++ {
+				sleep(time.Second)
+			}
+			rt.Hit("hsaccept.unsolicited-query-reply")
+			if pair.A.Deadline > 0 {
+				return
+			}
+			switch {
+			case !ret:
+				rt.Violate("C19/handshake-neither-completes-nor-fails", "initiator %+v: after MsgQueryReply NewConnection had not returned after 20 simulated minutes", co)
+			case !co.query && cErr == nil:
+				// a query reply selects no version. Ending like a query-mode connection (no
+				// version, no version data, no mini-protocol) is what the reference
+				// implementation does too; settling on anything is not
+				got, vd := conn.ProtocolVersion()
+				started := conn.ChainSync() != nil || conn.BlockFetch() != nil || conn.LocalTxSubmission() != nil || conn.LocalMessageSubmission() != nil
+				if got != 0 || vd != nil || started {
+					rt.Violate("C19/query-reply-completed-handshake", "initiator %+v (not in query mode) proposed %v; the responder answered with MsgQueryReply and NewConnection succeeded with version %d (version data %v), mini-protocols set up: %v", co, sortedVersions(proposed), got, vd != nil, started)
+				} else {
+					rt.Hit("hsaccept.query-reply-selected-nothing")
+				}
+			}
+			peer.close()
+			if conn != nil {
+				conn.Close()
+			}
+			return
+		}
 		// choose the acceptance
 		var v uint16
 		switch pick("op", 10) {
@@ -165,6 +225,14 @@ func hsAcceptSetup(s *rt.Sim, tier string) func() {
 			if b, ok := encodeVersionDataBadField(shape, magic, pick("op", 4)); ok {
 				vdata, badField, wantOK = b, true, false
 				rt.Hit("hsaccept.bad-field-type")
+			}
+			// second family (own stream): a null where a flag belongs, a peer-sharing value no
+			// version knows
+			if rt.Choose("op.x", 2) == 1 {
+				if b, ok := encodeVersionDataNullOrRange(shape, magic, rt.Choose("op.x", 4)); ok {
+					vdata, badField, wantOK = b, true, false
+					rt.Hit("hsaccept.null-or-out-of-range-field")
+				}
 			}
 		}
 		msg := append([]byte{0x83, 0x01}, cborUint(nil, 0, uint64(v))...)
